@@ -108,11 +108,23 @@ theorem aget_mem {l : List (κ × β)} {k : κ} {v : β} (h : aget l k = some v)
     · simp [h0] at h; subst h0; subst h; simp
     · simp [h0] at h; exact List.mem_cons_of_mem _ (ih h)
 
+/-- the weight of the entry of key `k` (0 when absent) -/
+def wold (w : κ → β → Nat) (l : List (κ × β)) (k : κ) : Nat :=
+  match aget l k with
+  | some v => w k v
+  | none => 0
+
+theorem wold_some {w : κ → β → Nat} {l : List (κ × β)} {k : κ} {v : β} (h : aget l k = some v) : wold w l k = w k v := by
+  unfold wold; rw [h]
+
+theorem wold_none {w : κ → β → Nat} {l : List (κ × β)} {k : κ} (h : aget l k = none) : wold w l k = 0 := by
+  unfold wold; rw [h]
+
 /-- removing a key removes exactly its weight -/
 theorem wsum_adel (w : κ → β → Nat) {l : List (κ × β)} (k : κ) (h : keysNodup l) :
-    wsum w (adel l k) + (match aget l k with | some v => w k v | none => 0) = wsum w l := by
+    wsum w (adel l k) + wold w l k = wsum w l := by
   induction l with
-  | nil => simp [adel, wsum, aget]
+  | nil => simp [adel, wsum, wold, aget]
   | cons p t ih =>
     obtain ⟨k0, v0⟩ := p
     unfold keysNodup at h
@@ -121,17 +133,21 @@ theorem wsum_adel (w : κ → β → Nat) {l : List (κ × β)} (k : κ) (h : ke
     by_cases h0 : k0 = k
     · subst h0
       have hn : aget t k0 = none := aget_none_of_not_mem h.1
-      rw [hn] at iht
+      rw [wold_none hn] at iht
       rw [adel_cons_eq]
-      simp only [aget, if_true, wsum]
-      simp only [Nat.add_zero] at iht
+      have : wold w ((k0, v0) :: t) k0 = w k0 v0 := wold_some (by simp [aget])
+      rw [this]
+      simp only [wsum]
       omega
     · rw [adel_cons_ne t v0 h0]
-      simp only [wsum, aget, h0, if_false]
+      have : wold w ((k0, v0) :: t) k = wold w t k := by
+        unfold wold; simp only [aget, h0, if_false]
+      rw [this]
+      simp only [wsum]
       omega
 
 theorem wsum_aset (w : κ → β → Nat) {l : List (κ × β)} (k : κ) (v : β) (h : keysNodup l) :
-    wsum w (aset l k v) + (match aget l k with | some v0 => w k v0 | none => 0) = w k v + wsum w l := by
+    wsum w (aset l k v) + wold w l k = w k v + wsum w l := by
   unfold aset
   simp only [wsum]
   have := wsum_adel w k h
@@ -166,8 +182,7 @@ theorem wsum_le_length_mul {w : κ → β → Nat} {l : List (κ × β)} {B : Na
 theorem wsum_ge_of_aget (w : κ → β → Nat) {l : List (κ × β)} {k : κ} {v : β} (hn : keysNodup l) (h : aget l k = some v) :
     w k v ≤ wsum w l := by
   have := wsum_adel w k hn
-  rw [h] at this
-  simp at this
+  rw [wold_some h] at this
   omega
 
 theorem length_adel_le (l : List (κ × β)) (k : κ) : (adel l k).length ≤ l.length := by
